@@ -8,6 +8,17 @@ HERE = os.path.dirname(os.path.dirname(os.path.abspath(__file__)))
 PY = "/venv/bin/python"
 
 CHECKS = {
+    "C06": dict(
+        category="exploration",
+        technique="property-based testing (Hypothesis recursive expression-tree strategies) against an independent forward-mode dual-number evaluator, with conditioning-aware tolerances",
+        text="Generated scalar trees over + - * %, constant and variable exponents, negation, reductions, indexing, each, imported "
+             "exp/sin/cos/tanh/sqrt/log, and vector-valued trees over the whole parameter (reverse, drop, take, scale, join, each, "
+             "scan) are differentiated with f:>p, p-nabla-f, p-jacobian-g, .jacobian, loss:>[w b] and [w b]-jacobian-g on numpy "
+             "and torch at grid points of the smooth domain; every entry must equal the exact derivative computed by pure-Python "
+             "dual numbers within a tolerance that includes the central-difference truncation term. Exploration-level.",
+        note="Trusted: the dual-number evaluator (60 lines); tolerances stated in ASSUMPTIONS; ill-conditioned cases (intermediate "
+             "quantities > 1e3, third derivative > 1e7) and functions independent of the parameter are rejected, not judged.",
+        design="3/C06"),
     "C05": dict(
         category="exploration",
         technique="differential property-based testing (Hypothesis + exhaustive small universe): compiled vs compiler-off twin interpreter",
